@@ -23,6 +23,7 @@ from vlib import core
 HERE = os.path.dirname(os.path.abspath(__file__))
 sys.path.insert(0, HERE)
 import c06lib as L  # noqa: E402
+import oddroots  # noqa: E402
 from c06lib import T  # noqa: E402
 
 LEVEL = "proof"
@@ -447,15 +448,25 @@ def run(ctx):
                         "two-image attack outside the property's quantifier; the generator never plants one)",
                         "the file system below R compares names byte for byte (no case folding / Unicode normalisation)",
                         "no concurrent modification of R while the tool runs",
-                        "R (the --unpack-root argument) itself is trusted input; mkdir_p(R)/chdir(R) happen before the modelled calls"]
+                        "R (the --unpack-root argument) itself is trusted input; mkdir_p(R)/chdir(R) happen before the modelled calls and are "
+                        "outside the Coq model: that the tool is IN R (or has failed) when the modelled calls start is checked by the "
+                        "search oracle on the class 'odd unpack roots' (props/C06/oddroots.py), not proved; a race that replaces R "
+                        "between mkdir_p and chdir is not exercised"]
     if os.geteuid() != 0:
         ctx.violation("machinery-not-root", "C06 check needs root (chroot jail, mknod, chown)", dict(kind="machinery"), no_input=True)
         return
-    cases, rule = gen_cases(ctx)
-    ctx.coverage["rule"] = rule
     work = os.path.join(ctx.scratch, "c06")
     os.makedirs(work)
     factory = L.JailFactory(work, rd)
+    if ctx.replay:
+        rj = json.load(open(ctx.replay))
+        if rj.get("oddroots"):
+            # replay of a case of the class "odd unpack roots" (props/C06/oddroots.py)
+            ctx.coverage["rule"] = "replay of %s" % ctx.replay
+            ctx.coverage["evaluations"] = oddroots.run(ctx, factory, work, only=rj["oddroots"])
+            return
+    cases, rule = gen_cases(ctx)
+    ctx.coverage["rule"] = rule
     mlines = [model_line(c) for c in cases]
     inp = "\n".join(m for m in mlines if m is not None) + "\n"
     r = subprocess.run([drv], input=inp.encode(), stdout=subprocess.PIPE, stderr=subprocess.PIPE)
@@ -473,6 +484,10 @@ def run(ctx):
         results = list(ex.map(lambda ic: run_real(factory, work, ic[0], ic[1]), enumerate(cases)))
     ctx.log("ran %d cases on the implementation in %.1fs" % (len(cases), time.time() - t0))
     evaluate(ctx, cases, mlines, mouts, results, factory)
+    if not ctx.replay:
+        # class "odd unpack roots": R is a regular file, a dangling/looping link, a link to another directory, not
+        # searchable/writable (unprivileged run), has missing parents, odd spellings, very long (oracle only)
+        ctx.coverage["evaluations"] += oddroots.run(ctx, factory, work)
     if ctx.tier == "thorough" and not ctx.replay:
         rc, out = core.sh(["timeout", "900", "coqchk", "-silent", "-o", "-Q", ".", "SqfsV", "SqfsV.Properties_C06"], cwd=core.COQ)
         ok = rc == 0 and "Axioms: <none>" in out
